@@ -103,13 +103,31 @@ Fixpoint pers_diff (k : nat) (a b : list pername) : nat * nat :=      (* (name i
   | _, _ => (k, 20)
   end.
 
+(* an ENVIRONMENT step of the harness (not a store operation, so not an `op` of the proved model): the recording process is killed in the
+   middle of a status line - n > 0 bytes of a JSON text reach the file of the open descriptor, without a newline, and the writer is gone.
+   `tears` lists (step index, n, mtime) of such steps; the step's s_op is a placeholder there.  What the proved model says about a
+   status update after such a step is Props/C07.v C07_update_after_torn. *)
+Definition tear_state (h : hstate) (n now : Z) : hstate :=
+  match hwr h with
+  | Some w => match w_fd w with
+              | Some (dir, fn) => {| hfs := run_prim (hfs h) (PAppend dir fn (CPart n) now); hwr := None; hcache := hcache h |}
+              | None => {| hfs := hfs h; hwr := None; hcache := hcache h |}
+              end
+  | None => h
+  end.
+Definition tear_at (tears : list (nat * Z * Z)) (idx : nat) : option (Z * Z) :=
+  match filter (fun t => Nat.eqb (fst (fst t)) idx) tears with t :: _ => Some (snd (fst t), snd t) | [] => None end.
+Variable tears : list (nat * Z * Z).
+Definition step_state (h : hstate) (s : step) (idx : nat) : hstate :=
+  match tear_at tears idx with Some (n, now) => tear_state h n now | None => apply loc dh h (s_op s) end.
+
 (* result: (step index, name index, component); component 0 = the whole history agrees;
    9 = directory names differ, 10 = files differ, 20/21 = malformed case *)
 Fixpoint run_check (names : list string) (m : mstate) (steps : list step) (idx : nat) : nat * nat * nat :=
   match steps with
   | [] => (0, 0, 0)
   | s :: r =>
-      let h' := apply loc dh (m_h m) (s_op s) in
+      let h' := step_state (m_h m) s idx in
       let m' := {| m_h := h'; m_c0 := m_c0 m; m_c1 := m_c1 m |} in
       let '(m2, per) := observe_all m' (s_reqs s) names in
       match pers_diff 0 per (s_per s) with
@@ -122,25 +140,26 @@ Fixpoint run_check (names : list string) (m : mstate) (steps : list step) (idx :
   end.
 
 (* debugging aid: the model's observations and dump after the first n steps *)
-Fixpoint model_at (names : list string) (m : mstate) (steps : list step) (n : nat) : list pername * list string * list filed :=
+Fixpoint model_at (names : list string) (m : mstate) (steps : list step) (idx n : nat) : list pername * list string * list filed :=
   match steps with
   | [] => ([], [], [])
   | s :: r =>
-      let h' := apply loc dh (m_h m) (s_op s) in
+      let h' := step_state (m_h m) s idx in
       let m' := {| m_h := h'; m_c0 := m_c0 m; m_c1 := m_c1 m |} in
       let '(m2, per) := observe_all m' (s_reqs s) names in
       match n with
       | O => (per, dump_dirs (hfs h'), dump_files (hfs h'))
-      | S n' => model_at names m2 r n'
+      | S n' => model_at names m2 r (S idx) n'
       end
   end.
 End C.
 
 Definition m_init : mstate := {| m_h := h_init; m_c0 := []; m_c1 := [] |}.
-Definition check_hcase (c : hcase) : nat * nat * nat :=
-  run_check (h_loc c) (lookup (h_names c)) (h_today c) (h_nrec c) (map fst (h_names c)) m_init (h_steps c) 0.
+Definition check_hcase_t (c : hcase) (tears : list (nat * Z * Z)) : nat * nat * nat :=
+  run_check (h_loc c) (lookup (h_names c)) (h_today c) (h_nrec c) tears (map fst (h_names c)) m_init (h_steps c) 0.
+Definition check_hcase (c : hcase) : nat * nat * nat := check_hcase_t c [].
 Definition debug_hcase (c : hcase) (n : nat) :=
-  model_at (h_loc c) (lookup (h_names c)) (h_today c) (h_nrec c) (map fst (h_names c)) m_init (h_steps c) n.
+  model_at (h_loc c) (lookup (h_names c)) (h_today c) (h_nrec c) [] (map fst (h_names c)) m_init (h_steps c) 0 n.
 
 (* indices of the histories on which model and implementation differ, with the place *)
 Fixpoint mismatches_from (k : nat) (cs : list hcase) : list (nat * (nat * nat * nat)) :=
@@ -152,3 +171,13 @@ Fixpoint mismatches_from (k : nat) (cs : list hcase) : list (nat * (nat * nat * 
               end
   end.
 Definition mismatches := mismatches_from 0.
+(* the same for histories with environment steps: cases paired with their tears *)
+Fixpoint mismatches_t_from (k : nat) (cs : list (hcase * list (nat * Z * Z))) : list (nat * (nat * nat * nat)) :=
+  match cs with
+  | [] => []
+  | (c, ts) :: r => match check_hcase_t c ts with
+                    | (_, _, 0) => mismatches_t_from (S k) r
+                    | x => (k, x) :: mismatches_t_from (S k) r
+                    end
+  end.
+Definition mismatches_t := mismatches_t_from 0.
